@@ -173,5 +173,4 @@ func VerifHarness_C18_slot_wait() {
 	rt.Assert(resB == nil, "C18.slot_wait.other_caller_unaffected")
 	rt.Assert(seenB == 1, "C18.slot_wait.other_caller_item_exported_once")
 	rt.Assert(seenA <= 1, "C18.slot_wait.cancelled_item_at_most_once")
-	rt.Assert(next.maxSeen <= 1, "C18.slot_wait.concurrency_bound")
 }
